@@ -66,6 +66,10 @@ def search(repo, fmt, seed=0, n_specs=200, hints=None, budget_s=60, jobs=12, cla
                     continue
                 failures.append({"spec": case["spec"], "failure": f, "key": key})
     failures.sort(key=lambda x: len(json.dumps(x["spec"])))
+    seen_keys = {}
+    for f in failures:
+        seen_keys.setdefault(f["key"], f)
+    failures = list(seen_keys.values()) + failures
     return {"evaluations": evaluations, "distinct_nontrivial": len(nontrivial), "failures": failures[:20], "n_failures": len(failures),
             "harness_errors": herr[:3], "wall_s": round(time.time() - t0, 1), "specs": len(specs),
             "rule": f"{len(specs)} generated abstract {fmt} images (seed {seed}) x request grid (all sector-aligned ranges up to a cap + random unaligned + read-to-end + past-the-end), "
